@@ -53,7 +53,7 @@ var canaries = map[string][]canary{}
 // propertyCanaries lists, per property, the rules whose canaries are run
 // after the property's own analysis.
 var propertyCanaries = map[string][]string{
-	"C01": {"FLAG.unitdiag", "BETA.noread", "BETA.quickret", "BETA.scaleguard", "FLAG.neginc", "STRIDE.index", "STRIDE.len", "STRIDE.start", "STRIDE.rowoffset", "STRIDE.extent", "FLAG.trans", "TWIN.generated", "ASM.units", "ASM.lost"},
+	"C01": {"STRIDE.unitidx", "FLAG.unitdiag", "BETA.noread", "BETA.quickret", "BETA.scaleguard", "FLAG.neginc", "STRIDE.index", "STRIDE.len", "STRIDE.start", "STRIDE.rowoffset", "STRIDE.extent", "FLAG.trans", "TWIN.generated", "ASM.units", "ASM.lost"},
 	"C02": {"FLAG.unset", "FLAG.unitdiag", "WORKSIZE.fallback", "OKFLOW.loopstatus", "FACTKIND.pair", "ARGS.order", "ARGS.lencheck", "ARGS.query", "LOOPIDX.unused", "OKFLOW.report", "STRIDE.vecinc", "WORKSIZE.min", "WORKSIZE.querylen"},
 	"C03": {"FLAG.unset", "FLAG.unitdiag", "WORKSIZE.fallback", "GUARD.operand", "FLAG.uplomap", "STRIDE.veclda", "FACTKIND.pair", "LOOPIDX.origin", "ARGS.order", "ARGS.lencheck", "ARGS.query", "LOOPIDX.unused", "OKFLOW.report", "STRIDE.workld", "STRIDE.worknext", "WORKSIZE.min"},
 	"C04": {"SWAP.cond", "STRIDE.contig", "TWIN.bounds", "NILRECV"},
@@ -100,6 +100,7 @@ func init() {
 		{"FACT.reuse", "mat/lq.go", "\t\tlq.q.Reset()\n\t\tlq.q.reuseAsNonZeroed(n, n)", "\t\tlq.q.reuseAsNonZeroed(n, n)", func() *core.Result { return factx.Run(def) }},
 		{"FLAG.unset", "mat/gsvd.go", "\t\tjobU = lapack.GSVDNone\n\t\tjobV = lapack.GSVDNone\n\t\tjobQ = lapack.GSVDNone\n\t\tif GSVDU&kind != 0 {", "\t\tif GSVDU&kind != 0 {", func() *core.Result { return flagx.RunUnset(def, core.Pkgs("./mat")) }},
 		{"FLAG.unset", "lapack/gonum/dgeev.go", "\t} else if wantvr {\n\t\tside = lapack.EVRight", "\t} else if wantvr {", func() *core.Result { return flagx.RunUnset(def, core.Pkgs("./lapack/gonum")) }},
+		{"STRIDE.unitidx", "blas/gonum/level2cmplx128.go", "\t// Here, kk points to the beginning of current row in ap.\n\tif incX == 1 && incY == 1 {\n\t\tfor i := 0; i < n; i++ {\n\t\t\tif x[i] != 0 || y[i] != 0 {\n\t\t\t\ttmp1 := alpha * x[i]", "\t// Here, kk points to the beginning of current row in ap.\n\tif incX == 1 {\n\t\tfor i := 0; i < n; i++ {\n\t\t\tif x[i] != 0 || y[i] != 0 {\n\t\t\t\ttmp1 := alpha * x[i]", func() *core.Result { return stride.Run(def, core.Pkgs("./blas/gonum")) }},
 		{"BETA.noread", "blas/gonum/level3float64.go", "\tif beta == 0 {\n\t\tfor i := 0; i < m; i++ {\n\t\t\tctmp := c[i*ldc : i*ldc+n]\n\t\t\tfor j := range ctmp {\n\t\t\t\tctmp[j] = 0", "\tif beta == 0 {\n\t\tfor i := 0; i < m; i++ {\n\t\t\tctmp := c[i*ldc : i*ldc+n]\n\t\t\tfor j := range ctmp {\n\t\t\t\tctmp[j] *= beta", func() *core.Result { return flagx.RunBetaZero(def, core.Pkgs("./blas/gonum")) }},
 		{"GUARD.operand", "lapack/gonum/dbdsqr.go", "if ncc > 0 {\n\t\t\t\timpl.Dlasr(blas.Left, lapack.Variable, lapack.Forward, n, ncc, work, work[n-1:], c, ldc)", "if nru > 0 {\n\t\t\t\timpl.Dlasr(blas.Left, lapack.Variable, lapack.Forward, n, ncc, work, work[n-1:], c, ldc)", func() *core.Result { return flagx.RunGuardOperand(def, core.Pkgs("./lapack/gonum")) }},
 		{"GOPROTO.scratch", "optimize/minimize.go", "\tworker := func() {\n\t\tx := make([]float64, dim)\n", "\tx := make([]float64, dim)\n\tworker := func() {\n", func() *core.Result { return goproto.Run(def, core.Pkgs("./optimize")) }},
